@@ -161,6 +161,20 @@ Definition find_attr80 (raw : bytes) : option nat :=
 
 Definition truncate (raw : bytes) : bytes := firstn (declared_len raw) raw.
 
+(* A datagram (cut to its declared length) whose Message-Authenticator is IRREGULAR: an attribute 80 whose
+   length is not 18, or more than one attribute 80 (RFC 3579 section 3.2 forbids both).  The property only says
+   when a message may take effect ("only if ..."), so an implementation is free to refuse such a message even
+   when everything it does check verifies.  The model leaves exactly this choice open: the generalised steps
+   below take the implementation's answer [rej] for such a message (true = it refused), and every theorem that
+   speaks about acceptance is proved for both answers. *)
+Definition ma_irregular (d : bytes) : bool :=
+  match parse d with
+  | Some p =>
+    let l := filter (fun a => fst a =? 80) (p_attrs p) in
+    existsb (fun a => negb (length (snd a) =? 16)%nat) l || (2 <=? length l)%nat
+  | None => false
+  end.
+
 Section Crypto.
 Variable md5raw : bytes -> bytes.
 
@@ -264,6 +278,20 @@ Fixpoint crun (fl : flags) (secret : bytes) (st : pending) (ops : list cop) : pe
   | [] => (st, [])
   | o :: r => let '(st1, out) := cstep fl secret st o in
               let '(st2, outs) := crun fl secret st1 r in (st2, out :: outs)
+  end.
+
+(* the client read loop with the admissible choice: a datagram with an irregular Message-Authenticator may be
+   ignored although it verifies ([rej] = the implementation ignored it) *)
+Definition cstep_g (fl : flags) (rej : bool) (secret : bytes) (st : pending) (o : cop) : pending * option N :=
+  match o with
+  | CRecv d => if rej && ma_irregular (truncate d) then (st, None) else cstep fl secret st o
+  | _ => cstep fl secret st o
+  end.
+Fixpoint crun_g (fl : flags) (secret : bytes) (st : pending) (ops : list (cop * bool)) : pending * list (option N) :=
+  match ops with
+  | [] => (st, [])
+  | (o, rej) :: r => let '(st1, out) := cstep_g fl rej secret st o in
+                     let '(st2, outs) := crun_g fl secret st1 r in (st2, out :: outs)
   end.
 
 (* Provider.Authenticate on top of one exchange (Retries = 1, one server): the request is registered, the
@@ -600,9 +628,20 @@ Definition reached_worker (o : coa_out) : bool :=
   | ODropInvalid _ [SInvalid] => false          (* dropped by readLoop *)
   | _ => true
   end.
-Definition coa_step_st (fl : flags) (cfg : coacfg) (now : Z) (src bus : N) (raw : bytes) (seen : cache)
-  : coa_out * cache :=
+(* the listener's admission with the admissible choice: an authenticated request with an irregular
+   Message-Authenticator may be dropped as invalid ([rej] = the implementation dropped it) *)
+Definition coa_step_g (fl : flags) (rej : bool) (cfg : coacfg) (now : Z) (src bus : N) (raw : bytes) : coa_out :=
   let out := coa_step fl cfg now src bus raw in
+  if rej && ma_irregular (truncate raw) && reached_worker out then
+    match out with
+    | OReply cl _ _ _ | ODropInvalid cl _ | OSilent cl => ODropInvalid cl [SInvalid]
+    | ODropUnknown => out
+    end
+  else out.
+
+Definition coa_step_st (fl : flags) (rej : bool) (cfg : coacfg) (now : Z) (src bus : N) (raw : bytes) (seen : cache)
+  : coa_out * cache :=
+  let out := coa_step_g fl rej cfg now src bus raw in
   if f_dedup fl && reached_worker out then
     match dedup_key cfg src raw with
     | Some (sec, k) =>
@@ -622,12 +661,12 @@ Definition coa_step_st (fl : flags) (cfg : coacfg) (now : Z) (src bus : N) (raw 
     end
   else (out, seen).
 
-Definition coa_input := (Z * N * N * bytes)%type.          (* now, source, bus outcome, datagram *)
+Definition coa_input := (Z * N * N * bytes * bool)%type.   (* now, source, bus outcome, datagram, rej (see coa_step_g) *)
 Fixpoint coa_run (fl : flags) (cfg : coacfg) (seen : cache) (ins : list coa_input) : list coa_out :=
   match ins with
   | [] => []
-  | (now, src, bus, raw) :: r =>
-    let '(o, seen') := coa_step_st fl cfg now src bus raw seen in o :: coa_run fl cfg seen' r
+  | (now, src, bus, raw, rej) :: r =>
+    let '(o, seen') := coa_step_st fl rej cfg now src bus raw seen in o :: coa_run fl cfg seen' r
   end.
 
 (* Authenticate with the provider's extractAttributes (no custom response mappings) *)
